@@ -114,6 +114,9 @@ pub struct LifeMachine<S: Spec> {
     m: S::M,
     /// the region is a coded region built by merge_regions and not cleared since
     coded_merged: bool,
+    /// values held by the regions the current (coded, merged) region was built from: their symbols / strings are
+    /// covered by its statistics, so pushing them must be accepted
+    covered: Vec<usize>,
     /// model index of the previous push since the last clear / merge
     last_midx: Option<MIdx>,
     tags: Vec<String>,
@@ -170,6 +173,10 @@ impl<S: Spec> LifeMachine<S> {
             for srcs in 0..5u8 {
                 ops.push(OpDef::Merge { srcs });
             }
+            if e.coded != Coded::No {
+                // three sources of different shapes, the region under test in the middle
+                ops.push(OpDef::Merge { srcs: 5 });
+            }
         }
         if cfg.clone_replace && e.clone_fn.is_some() {
             ops.push(OpDef::CloneReplace);
@@ -193,6 +200,7 @@ impl<S: Spec> LifeMachine<S> {
             count: 0,
             m: Default::default(),
             coded_merged: false,
+            covered: vec![],
             last_midx: None,
             tags: vec![],
         }
@@ -202,6 +210,11 @@ impl<S: Spec> LifeMachine<S> {
         let mut m = S::M::default();
         match which {
             0 => {}
+            3 => {
+                for v in self.values.iter().skip(self.values.len().saturating_sub(2)) {
+                    S::m_push(&mut m, v);
+                }
+            }
             _ => {
                 for v in self.values.iter().take(2) {
                     S::m_push(&mut m, v);
@@ -289,6 +302,11 @@ impl<S: Spec> LifeMachine<S> {
                     let _ = S::canon_push(&mut r, v);
                 }
             }
+            3 => {
+                for v in self.values.iter().skip(self.values.len().saturating_sub(2)) {
+                    let _ = S::canon_push(&mut r, v);
+                }
+            }
             _ => {
                 // same contents as the region under test
                 for (_, val) in &self.a.issued {
@@ -300,7 +318,12 @@ impl<S: Spec> LifeMachine<S> {
     }
 
     fn check_side(values: &[S::V], side: &Side<S>, who: &str) -> Result<(), String> {
+        let n = side.issued.len();
         for (k, (idx, val)) in side.issued.iter().enumerate() {
+            // histories of more than 2^17 items: the first and last 64 items and every 1009th in between
+            if n > (1 << 17) && k >= 64 && k + 64 < n && k % 1009 != 0 {
+                continue;
+            }
             let v = &values[*val];
             let r = &side.r;
             match guard(|| S::check(r.index(*idx), v)) {
@@ -372,9 +395,15 @@ impl<S: Spec> LifeMachine<S> {
                 // more than usize::MAX zero-sized elements: resource exhaustion, not in the model
                 return Step::Refused(p);
             }
-            Err(p) if self.coded_merged => {
+            Err(p) if self.coded_merged && !self.covered.contains(&val) => {
                 self.tags.push("refused:coded-after-merge".into());
                 return Step::Refused(p);
+            }
+            Err(p) if self.coded_merged => {
+                return Step::Violation(format!(
+                    "push({}) as {fname} was refused by a region built by merge_regions although one of its source regions holds the same value (covered by the statistics): {p}",
+                    S::show(&v)
+                ));
             }
             Err(p) => return Step::Violation(format!("push({}) as {fname} panicked: {p}", S::show(&v))),
         };
@@ -518,6 +547,7 @@ impl<S: Spec> Machine for LifeMachine<S> {
         self.count = 0;
         self.m = Default::default();
         self.coded_merged = false;
+        self.covered.clear();
         self.last_midx = None;
         self.tags.clear();
         if self.cfg.prefill > 0 {
@@ -553,7 +583,7 @@ impl<S: Spec> Machine for LifeMachine<S> {
             ),
             OpDef::Merge { srcs } => format!(
                 "replace by merge_regions([{}])",
-                ["", "self", "sibling holding two values", "self, sibling", "empty region"][*srcs as usize]
+                ["", "self", "sibling holding two values", "self, sibling", "empty region", "sibling holding the first two values, self, sibling holding the last two values"][*srcs as usize]
             ),
             OpDef::CloneReplace => "replace by clone()".into(),
             OpDef::CloneFromReplace => "replace by clone_from() into a pre-filled region".into(),
@@ -581,6 +611,7 @@ impl<S: Spec> Machine for LifeMachine<S> {
                 self.a.issued.clear();
                 self.count = 0;
                 self.coded_merged = false;
+                self.covered.clear();
                 self.last_midx = None;
                 S::m_clear(&mut self.m);
                 match self.cfg.twin {
@@ -627,22 +658,37 @@ impl<S: Spec> Machine for LifeMachine<S> {
             OpDef::Merge { srcs } => {
                 let sib = self.sibling(1);
                 let empty = self.sibling(0);
+                let sib_last = self.sibling(3);
+                let nv = self.values.len();
+                let mut covered: Vec<usize> = match srcs {
+                    1 => self.a.issued.iter().map(|x| x.1).collect(),
+                    2 => (0..nv.min(2)).collect(),
+                    3 => self.a.issued.iter().map(|x| x.1).chain(0..nv.min(2)).collect(),
+                    5 => self.a.issued.iter().map(|x| x.1).chain(0..nv.min(2)).chain(nv.saturating_sub(2)..nv).collect(),
+                    _ => vec![],
+                };
+                covered.sort();
+                covered.dedup();
                 let a = &self.a.r;
                 let merged = guard(|| match srcs {
                     0 => S::R::merge_regions(std::iter::empty()),
                     1 => S::R::merge_regions(std::iter::once(a)),
                     2 => S::R::merge_regions(std::iter::once(&sib)),
                     3 => S::R::merge_regions([a, &sib].into_iter()),
+                    5 => S::R::merge_regions([&sib, a, &sib_last].into_iter()),
                     _ => S::R::merge_regions(std::iter::once(&empty)),
                 });
+                self.covered = covered;
                 {
                     let sm = self.sibling_model(1);
                     let em = self.sibling_model(0);
+                    let lm = self.sibling_model(3);
                     let srcs_m: Vec<&S::M> = match srcs {
                         0 => vec![],
                         1 => vec![&self.m],
                         2 => vec![&sm],
                         3 => vec![&self.m, &sm],
+                        5 => vec![&sm, &self.m, &lm],
                         _ => vec![&em],
                     };
                     let nm = S::m_merged(&srcs_m);
@@ -666,6 +712,7 @@ impl<S: Spec> Machine for LifeMachine<S> {
                                 1 => S::R::merge_regions(std::iter::once(tr)),
                                 2 => S::R::merge_regions(std::iter::once(&sib)),
                                 3 => S::R::merge_regions([tr, &sib].into_iter()),
+                                5 => S::R::merge_regions([&sib, tr, &sib_last].into_iter()),
                                 _ => S::R::merge_regions(std::iter::once(&empty)),
                             };
                             *t = Side { r: m, issued: vec![] };
@@ -728,6 +775,10 @@ impl<S: Spec> Machine for LifeMachine<S> {
         self.after(&what)
     }
     fn fingerprint(&self) -> Option<String> {
+        if self.cfg.prefill > (1 << 17) {
+            // rendering a million items per state costs more than exploring the few paths without state matching
+            return None;
+        }
         let ra = self.render(&self.a.r)?;
         let mut s = String::new();
         s.push_str(&ra);
